@@ -683,3 +683,31 @@ func sortedKeys[V any](m map[string]V) []string {
 	sort.Strings(ks)
 	return ks
 }
+
+// arithmetic with constant folding on literals
+func addT(a, b T) T {
+	x, ok1 := smallConstBig(a)
+	y, ok2 := smallConstBig(b)
+	if ok1 && ok2 {
+		return mkBig(new(big.Int).Add(x, y))
+	}
+	if ok1 && x.Sign() == 0 {
+		return b
+	}
+	if ok2 && y.Sign() == 0 {
+		return a
+	}
+	return app(SInt, "+", a, b)
+}
+
+func subT(a, b T) T {
+	x, ok1 := smallConstBig(a)
+	y, ok2 := smallConstBig(b)
+	if ok1 && ok2 {
+		return mkBig(new(big.Int).Sub(x, y))
+	}
+	if ok2 && y.Sign() == 0 {
+		return a
+	}
+	return app(SInt, "-", a, b)
+}
